@@ -148,7 +148,8 @@ extern int _mpt_stream_setfile(MPT_STRUCT(streaminfo) *info, int nrfd, int nwfd)
 	nwfd = 0;
 	
 	if (orfd >= 0) { close(orfd); nwfd |= 2; }
-	if (owfd >= 0) { close(owfd); nwfd |= 1; }
+	/* single descriptor for both directions is closed once */
+	if (owfd >= 0 && owfd != orfd) { close(owfd); nwfd |= 1; }
 	
 	return nwfd;
 }
